@@ -89,7 +89,7 @@ type rpcTarget struct {
 	leg    *e2e.Leg
 	client *mainsvc.FFooClient
 	limit  int
-	band   int  // response direction: sizes in (limit, limit+band] are unconstrained
+	band   int  // response direction: the limit applies to the response WITHOUT these many prefix bytes (HTTP: the handler compares the unframed buffer, 4)
 	async  bool // tap fed asynchronously (NATS)
 	custom *limitTransport
 	// noCanary: the canary call itself does not fit the limit of this leg
@@ -219,8 +219,10 @@ func (t *rpcTarget) requestCase(run *ev.Run, ci caseInfo, hdrBytes int) {
 // responseCase: a response of measured framed size R against limit L.
 func (t *rpcTarget) responseCase(run *ev.Run, ci caseInfo) {
 	t.reset()
+	// exact: what the server compares with the limit is the measured frame
+	// minus the size prefix where the limit is defined on the unframed response
 	over := ci.Measured-t.band > ci.Limit
-	within := ci.Measured <= ci.Limit
+	within := !over
 	timeout := normalTimeout
 	if t.async && !within {
 		timeout = shortTimeout // same header width; a lost reply costs 2.5 s instead of 9
@@ -295,7 +297,7 @@ func (t *rpcTarget) responseCase(run *ev.Run, ci caseInfo) {
 			if class == "timeout" && len(replies) > 0 {
 				run.Inconclusive(ci.key() + ": the call timed out but a reply frame did reach the wire (late reply)")
 			} else {
-				run.Violation("C12:within-limit-response-rejected:"+sfx+":"+class, fmt.Sprintf("a response of %d framed bytes within the limit %d reached the caller as %s", ci.Measured, ci.Limit, errText(err)), ci.witness(obs))
+				run.Violation("C12:within-limit-response-rejected:"+sfx+":"+class, fmt.Sprintf("a response of %d framed bytes (%d compared with the limit) within the limit %d reached the caller as %s", ci.Measured, ci.Measured-t.band, ci.Limit, errText(err)), ci.witness(obs))
 			}
 		} else if got != expectedResponseDigest(ci.Shape, ci.Bulk, ci.Fine) {
 			run.Violation("C12:within-limit-response-corrupted:"+sfx, "the caller received different data than the handler returned", ci.witness(obs))
